@@ -30,7 +30,7 @@ RULE = ("cases = (abstract client state: each of 3 types none/subscribed/paused,
         "distinct = distinct (state, op, args)")
 ASSUMPTIONS = ["delivered set is decided from raw bytes on client.sock after fences (ACKs) on both connections",
                "contexts are exited normally; a context entered with ALL in its list is outside the statement"]
-REQUIRE = {"probes_compared": 500, "context_restores_checked": 100, "suball_refusals_checked": 30}
+REQUIRE = {"probes_compared": 500, "context_restores_checked": 100, "suball_refusals_checked": 30, "reconnects": 20}
 CASE_TIMEOUT = 200
 
 SHAPES3 = [[0], [1], [2], [0, 1], [1, 2], [0, 2], [0, 1, 2], [0, 0], [1, 0, 1], [2, 1, 0], []]
@@ -229,10 +229,20 @@ def run_case(case, tier):
             else:
                 rng = random.Random(case["seed"])
                 names = ["subscribe", "unsubscribe", "pause_subscription", "resume_subscription", "unsubscribe_from_all",
-                         "pause_all_subscriptions", "resume_all_subscriptions", "subscription_context", "paused_subscription_context"]
+                         "pause_all_subscriptions", "resume_all_subscriptions", "subscription_context", "paused_subscription_context"] * 3 + \
+                        ["reconnect_clean", "reconnect_lost"]
                 trace = []
                 for i in range(case["len"]):
                     name = rng.choice(names)
+                    if name.startswith("reconnect"):
+                        trace.append([name, None])
+                        S.reconnect(lost=(name == "reconnect_lost"))
+                        o.bump("reconnects")
+                        after = check_agreement(S, univ, o, f"walk step {i} {name}")
+                        if after is None:
+                            break
+                        res["sets"].setdefault("walk_states", []).append([sorted(after[0]), sorted(after[1])])
+                        continue
                     if name.endswith("_all") or name.endswith("subscriptions"):
                         op = [name, None]
                     else:
